@@ -168,7 +168,8 @@ impl VmStateIterator {
             memory: self.chiplets.get_mem_state_at(ctx, self.clk),
         });
 
-        self.clk -= 1;
+        // the first state (clk = 0) is the last one which can be returned when stepping backwards
+        self.clk = self.clk.saturating_sub(1);
 
         result
     }
